@@ -168,7 +168,32 @@ def sw_beat(rng, n):
     return O.search(B, rng, budget=max(2, n // 20))
 
 
-SWEEPS = [sw_beat, sw_pattern_alignment_tempo, sw_events, sw_transcription, sw_melody, sw_multipitch, sw_hierarchy, sw_segment, sw_keychord, sw_chord, sw_intervals]
+@_quiet
+def sw_multipitch_self(rng, n):
+    """a multipitch annotation scored against an exact copy of itself: P = R = Acc = 1, all errors 0 (raw and chroma)"""
+    import numpy as np
+    from mir_eval import multipitch as M
+    out = []
+    base = [110.0, 220.0, 440.0, 880.0, 330.0, 660.0, 247.5, 495.0, 277.18263097687, 1760.0]
+    for _ in range(max(3, n // 4)):
+        k = rng.randint(1, 6)
+        t = np.arange(k) * rng.choice([0.25, 0.01, 0.5])
+        fr = [np.array(sorted(set(rng.choice(base) for _ in range(rng.choice([0, 1, 2, 3, 4])))), dtype=float) for _ in range(k)]
+        if not any(len(f) for f in fr):
+            continue
+        if rng.random() < 0.5:
+            fr = [f[::-1].copy() for f in fr]
+        sc = M.evaluate(t, fr, t.copy(), [f.copy() for f in fr])
+        for key, v in sc.items():
+            want = 0.0 if 'Error' in key else 1.0
+            if abs(float(v) - want) > 1e-9:
+                out.append({'function': 'multipitch.evaluate', 'relation': 'perfect estimate: %s = %g' % (key, want),
+                            'input': [t.tolist(), [f.tolist() for f in fr]], 'observed': float(v), 'why': ''})
+                return out
+    return out
+
+
+SWEEPS = [sw_multipitch_self, sw_beat, sw_pattern_alignment_tempo, sw_events, sw_transcription, sw_melody, sw_multipitch, sw_hierarchy, sw_segment, sw_keychord, sw_chord, sw_intervals]
 
 
 def register(fn):
